@@ -235,10 +235,27 @@ def _lrepr_bool(o: bool, **_) -> str:
     return repr(o).lower()
 
 
+_BYTES_ESCAPES = {
+    ord('"'): '\\"',
+    ord("\\"): "\\\\",
+    ord("\a"): "\\a",
+    ord("\b"): "\\b",
+    ord("\f"): "\\f",
+    ord("\n"): "\\n",
+    ord("\r"): "\\r",
+    ord("\t"): "\\t",
+    ord("\v"): "\\v",
+}
+
+
 @lrepr.register(bytes)
 def _lrepr_bytes(o: bytes, **_) -> str:
-    v = repr(o)
-    return f'#b "{v[2:-1]}"'
+    # Use only the escapes the byte string reader understands; repr(bytes) picks its
+    # own quote character and escapes, which the reader does not share.
+    v = "".join(
+        _BYTES_ESCAPES.get(b) or (chr(b) if 32 <= b < 127 else f"\\x{b:02x}") for b in o
+    )
+    return f'#b "{v}"'
 
 
 @lrepr.register(type(None))
